@@ -3060,7 +3060,7 @@ impl<const RICE_MAX: u32, I: SignedInteger> ToBitStream for ResidualPartition<RI
 
                 for residual in residuals {
                     let (msb, lsb) = mask(if residual.is_negative() {
-                        (((-*residual).to_u32() - 1) << 1) + 1
+                        ((!*residual).to_u32() << 1) + 1
                     } else {
                         (*residual).to_u32() << 1
                     });
